@@ -466,6 +466,13 @@ def Stream.writeMessageV {σ : Type} (V : MsgValidator σ) (F : Faults) (o : Opt
       let r2 := encodeMessage F o r.1.e m'
       ({ r.1 with e := r2.1 }, vs', if r2.2 then .ok else .err)
 
+/-- `WriteMessage` for each message of a list, stopping at the first call that does not succeed -/
+def Stream.writeAllV {σ : Type} (V : MsgValidator σ) (F : Faults) (o : Opts) (h : Hdr) : Stream → σ → List WMsg → Stream × σ × Res
+  | s, vs, [] => (s, vs, .ok)
+  | s, vs, m :: ms =>
+    let r := s.writeMessageV V F o h vs m
+    if r.2.2 = .ok then Stream.writeAllV V F o h r.1 r.2.1 ms else r
+
 /-- `SequenceCompleted` with the validator state: `e.enc.reset()` resets the validator only when it is reached -/
 def Stream.sequenceCompletedV {σ : Type} (V : MsgValidator σ) (F : Faults) (c : StreamCfg) (o : Opts) (h : Hdr) (s : Stream) (vs : σ) :
     Stream × σ × Res :=
